@@ -240,6 +240,17 @@ func doCall(c *TrieCase, st *trie.SlimTrie, rc readCall) (res string) {
 	return string(b)
 }
 
+// soloCall: the reference run of a call, alone on the twin instance, under the watchdog
+func soloCall(c *TrieCase, st *trie.SlimTrie, rc readCall) (res string) {
+	defer func() {
+		if r := recover(); r != nil {
+			res = "PANIC: " + fmt.Sprint(r)
+		}
+	}()
+	watched(func() { res = doCall(c, st, rc) })
+	return
+}
+
 func pickCalls(r *rand.Rand, c *TrieCase, k int, scansOK bool) []readCall {
 	apis := []string{"GetID", "Get", "RangeGet", "Search", "GetID", "Search", "Stat", "String", "Marshal", "GetI", "ProtoMarshal", "RangeGet"}
 	if scansOK {
@@ -310,6 +321,7 @@ func runGated(c *TrieCase, st *trie.SlimTrie, calls []readCall, sched []int, has
 	}
 	done := make([]bool, len(calls))
 	hashChangedAt = -1
+	hung := false
 	step := func(ri int) {
 		if done[ri] {
 			return
@@ -317,7 +329,16 @@ func runGated(c *TrieCase, st *trie.SlimTrie, calls []readCall, sched []int, has
 		g := readers[ri]
 		current = g
 		g.resume <- true
-		ev := <-g.event
+		var ev string
+		select {
+		case ev = <-g.event:
+		case <-time.After(hangLimit):
+			// the reader neither reached its next verification point nor returned: a call
+			// that does not terminate (or a deadlock) is an observation, not a lost run
+			g.result = fmt.Sprintf("\"HANG: the call did not return within %v\"", hangLimit)
+			hung = true
+			ev = "done"
+		}
 		current = nil
 		steps++
 		if ev == "done" {
@@ -347,8 +368,10 @@ func runGated(c *TrieCase, st *trie.SlimTrie, calls []readCall, sched []int, has
 			break
 		}
 	}
-	wg.Wait()
-	if hashChangedAt < 0 && deepHash(st) != hashBase {
+	if !hung {
+		wg.Wait()
+	}
+	if hashChangedAt < 0 && !hung && deepHash(st) != hashBase {
 		hashChangedAt = steps
 	}
 	for _, g := range readers {
@@ -365,7 +388,7 @@ func runGated(c *TrieCase, st *trie.SlimTrie, calls []readCall, sched []int, has
 func concEv(c *TrieCase, st, twin *trie.SlimTrie, calls []readCall, sched []int) Ev {
 	solo := make([]string, len(calls))
 	for i, rc := range calls {
-		solo[i] = doCall(c, twin, rc)
+		solo[i] = soloCall(c, twin, rc)
 	}
 	base := deepHash(st)
 	got, visits, hc, steps := runGated(c, st, calls, sched, base)
@@ -442,7 +465,7 @@ func stressEvGroup(c *TrieCase, st, twin *trie.SlimTrie, r *rand.Rand, nG int, d
 	}
 	solo := make([]string, len(calls))
 	for i, rc := range calls {
-		solo[i] = doCall(c, twin, rc)
+		solo[i] = soloCall(c, twin, rc)
 	}
 	base := deepHash(st)
 	userGate = func() { runtime.Gosched() }
@@ -482,7 +505,24 @@ func stressEvGroup(c *TrieCase, st, twin *trie.SlimTrie, r *rand.Rand, nG int, d
 			mu.Unlock()
 		}(r.Int63())
 	}
-	wg.Wait()
+	allDone := make(chan bool)
+	go func() { wg.Wait(); close(allDone) }()
+	select {
+	case <-allDone:
+	case <-time.After(time.Until(stop) + 2*hangLimit):
+		// goroutines that never come back: a deadlock or a call that does not terminate
+		// under concurrency.  The run goes on; this instance is not touched again.
+		mu.Lock()
+		mismatch++
+		if first == "" {
+			first = "HANG: reader goroutines did not return (deadlock or non-terminating call)"
+		}
+		mu.Unlock()
+		mu.Lock()
+		m2, t2, f2 := mismatch, total, first
+		mu.Unlock()
+		return Ev{"ev": "stress", "goroutines": nG, "calls": t2, "mismatch": m2, "first": f2, "hashchanged": 0, "group": group}
+	}
 	if len(first) > 200 {
 		first = first[:200]
 	}
